@@ -14,21 +14,23 @@ variable {P O G B L Sc : Type}
 /-- gradients live in a module over ℚ; `add`/`zero`/`div_` are the module operations; model, loss
 (`grad`), clipping and optimiser stay arbitrary -/
 def moduleOps [AddCommGroup G] [Module ℚ G] (grad : P → B → G) (clip : G → G)
-    (opt : L → P → O → G → P × O) : Ops P O G B L :=
-  { grad := grad, add := (· + ·), zero := 0, divk := fun k g => ((k : ℚ))⁻¹ • g, clip := clip, opt := opt }
+    (opt : L → P → O → G → P × O) (supd : Sc → Sc := fun s => s) : Ops P O G B L Sc :=
+  { grad := grad, add := (· + ·), zero := 0, divk := fun k g => ((k : ℚ))⁻¹ • g, clip := clip, opt := opt, supd := supd }
 
 /-- two parameter groups — `self.model` (gradients in `G`) and the additional models in `self.models` (gradients in
-`H`), all in one optimiser: `training_loop` applies `div_(gradient_steps)` to `self.model.parameters()` only -/
-def moduleOps2 {H : Type} [AddCommGroup G] [Module ℚ G] [AddCommGroup H] [Module ℚ H]
-    (grad : P → B → G × H) (clip : G × H → G × H) (opt : L → P → O → G × H → P × O) : Ops P O (G × H) B L :=
-  { grad := grad, add := (· + ·), zero := 0, divk := fun k g => (((k : ℚ))⁻¹ • g.1, g.2), clip := clip, opt := opt }
+`H`), all in one optimiser, **as on the pinned tree**: `div_(gradient_steps)` applied to `self.model.parameters()` only -/
+def moduleOps2Pinned {H : Type} [AddCommGroup G] [Module ℚ G] [AddCommGroup H] [Module ℚ H]
+    (grad : P → B → G × H) (clip : G × H → G × H) (opt : L → P → O → G × H → P × O) (supd : Sc → Sc := fun s => s) :
+    Ops P O (G × H) B L Sc :=
+  { grad := grad, add := (· + ·), zero := 0, divk := fun k g => (((k : ℚ))⁻¹ • g.1, g.2), clip := clip, opt := opt,
+    supd := supd }
 
 /-- additive gradients only (for the conservation law) -/
 def addOps [AddCommMonoid G] (grad : P → B → G) (divk : Nat → G → G) (clip : G → G)
-    (opt : L → P → O → G → P × O) : Ops P O G B L :=
-  { grad := grad, add := (· + ·), zero := 0, divk := divk, clip := clip, opt := opt }
+    (opt : L → P → O → G → P × O) (supd : Sc → Sc := fun s => s) : Ops P O G B L Sc :=
+  { grad := grad, add := (· + ·), zero := 0, divk := divk, clip := clip, opt := opt, supd := supd }
 
-theorem windowSum_eq_sum [AddCommMonoid G] (ops : Ops P O G B L) (hadd : ops.add = (· + ·))
+theorem windowSum_eq_sum [AddCommMonoid G] (ops : Ops P O G B L Sc) (hadd : ops.add = (· + ·))
     (batch : Nat → B) (θ : P) (it0 n : Nat) (g0 : G) :
     windowSum ops batch θ it0 n g0 = g0 + ∑ j ∈ Finset.range n, ops.grad θ (batch (it0 + j)) := by
   induction n with
